@@ -61,6 +61,7 @@ func genC20(seed uint64, tier string) *plan.Plan {
 	nt := 2 + r.IntN(3)
 	pl.Cfg["tasks"] = int64(nt)
 	n := 6 + r.IntN(12)
+	lastGet := 0
 	for i := 0; i < n; i++ {
 		switch x := r.IntN(20); {
 		case x < 9:
@@ -77,9 +78,14 @@ func genC20(seed uint64, tier string) *plan.Plan {
 			case 3:
 				cnt = int64(r.IntN(6000))
 			}
-			pl.Ops = append(pl.Ops, plan.Op{K: "get", T: 1 + r.IntN(nt-1), A: cnt, S: []string{"", "json", "text"}[r.IntN(3)]})
+			lastGet = 1 + r.IntN(nt-1)
+			pl.Ops = append(pl.Ops, plan.Op{K: "get", T: lastGet, A: cnt, S: []string{"", "json", "text"}[r.IntN(3)]})
 		case x < 18:
-			pl.Ops = append(pl.Ops, plan.Op{K: "reset", T: 1 + r.IntN(nt-1)})
+			t := 1 + r.IntN(nt-1)
+			if nt > 2 && t == lastGet && r.IntN(3) > 0 {
+				t = 1 + (t % (nt - 1)) // another client than the one that asked last: the two requests can overlap
+			}
+			pl.Ops = append(pl.Ops, plan.Op{K: "reset", T: t})
 		default:
 			pl.Ops = append(pl.Ops, plan.Op{K: "bad", T: 1 + r.IntN(nt-1), A: int64(r.IntN(5))})
 		}
